@@ -37,7 +37,8 @@ CallsA ==     \* the content mutators of the statement
     [] FAMILY = "poppush" -> {[op |-> "Push", xs |-> <<"a", "b">>], [op |-> "Pop"], [op |-> "Remove", i |-> 1], [op |-> "Insert", x |-> "b", i |-> 1]}
     [] FAMILY = "mini3" -> {[op |-> "Pop"], [op |-> "Push", xs |-> <<"a">>], [op |-> "Remove", i |-> 0], [op |-> "Insert", x |-> "b", i |-> 0]}
     \* "policy": a push policy (approving a and b) is installed; Push consults it INSIDE its critical section
-    [] FAMILY = "policy" -> {[op |-> "Push", xs |-> <<"a">>], [op |-> "Push", xs |-> <<"a", "b">>], [op |-> "Pop"], [op |-> "Insert", x |-> "b", i |-> 0]}
+    [] FAMILY = "policy" -> {[op |-> "Push", xs |-> <<"a">>], [op |-> "Push", xs |-> <<"a", "b">>], [op |-> "Pop"], [op |-> "Insert", x |-> "b", i |-> 0],
+                             [op |-> "Push", xs |-> <<"a", "c">>]}       \* c is REJECTED: the error is recorded inside the same critical section
     [] OTHER -> {[op |-> "Pop"], [op |-> "Push", xs |-> <<"a">>]}
 
 InitElems(n) == CASE n = 0 -> <<>> [] n = 1 -> <<"p">> [] n = 2 -> <<"p", "q">> [] OTHER -> <<"p", "q", "r">>
